@@ -13,8 +13,13 @@ Definition sfind (p : bytes) (s : store) : list (bytes * bytes) :=
   omap (fun k => if is_prefix p k then (fun v => (k, v)) <$> (s !! k) else None) (skeys s).
 
 (** limits.MaxStorageKeyLen = 64, limits.MaxStorageValueLen = 65535
-    (pkg/core/interop/storage/basic.go: putWithContext); Get/Find/Delete have
-    no length check. *)
+    (pkg/core/interop/storage/basic.go: putWithContext).  Get/Find/Delete have
+    no explicit check, but in neo-go 0.107 the private DAO of an invocation
+    builds the database key in a buffer of 1+4+64 bytes, so a key or prefix
+    longer than 64 bytes FAULTS there too (observed on the real contracts:
+    "slice bounds out of range [:70] with capacity 69"): [with_key]. *)
+Definition key_ok (k : bytes) : bool := (length k <=? 64)%nat.
+Definition with_key {A} (k : bytes) (x : A) : outcome A := if key_ok k then Halt x else Fault.
 Definition sput (k v : bytes) (s : store) : outcome store :=
   if (length k <=? 64)%nat && (Z.of_nat (length v) <=? 65535)%Z then Halt (<[k := v]> s) else Fault.
 
